@@ -529,6 +529,15 @@ func TestEngineCrypto(t *testing.T) {
 			{"fee-denom", func(d *docSpec) { d.feeDenom = "utwo" }},
 			{"gas", func(d *docSpec) { d.gas++ }},
 			{"memo", func(d *docSpec) { d.memo += "x" }},
+			{"memo-trailing-space", func(d *docSpec) { d.memo += " " }},
+			{"memo-leading-space", func(d *docSpec) { d.memo = " " + d.memo }},
+			{"memo-case", func(d *docSpec) {
+				if d.memo == strings.ToUpper(d.memo) {
+					d.memo += "A"
+				} else {
+					d.memo = strings.ToUpper(d.memo)
+				}
+			}},
 			{"msg-field", func(d *docSpec) {
 				ms := append([]sdk.Msg{}, d.msgs...)
 				k := r.Intn(len(ms))
@@ -618,8 +627,12 @@ func TestEngineCrypto(t *testing.T) {
 			if pub1.VerifySignature(am2, sigE) || pub1.VerifySignature(am2, sigP) || pub1.VerifySignature(am2, sigE[:64]) {
 				p.Oracle("C19-signature-accepts-other-message", "a signature for %s verifies for %s (perturbation %s)", am, am2, pt.name)
 			}
-			if pb2 := protoBytes(d2, pub1); pub1.VerifySignature(pb2, sigE) || pub1.VerifySignature(pb2, sigP) {
+			pb2 := protoBytes(d2, pub1)
+			if pub1.VerifySignature(pb2, sigE) || pub1.VerifySignature(pb2, sigP) {
 				p.Oracle("C19-signature-accepts-other-message", "a signature for %s verifies for the protobuf document of %s (perturbation %s)", am, am2, pt.name)
+			}
+			if dgP2, _ := digestOf(pb2); dgP2 == dgA || dgP2 != dg2 {
+				p.Oracle("C19-eip712-collision", "perturbation %s: the protobuf sign document renders to %s, the amino one to %s, the unperturbed one to %s", pt.name, dgP2, dg2, dgA)
 			}
 		}
 		// ---- what must verify
